@@ -256,78 +256,81 @@ def run_config(fn, params, cfg_key, seed=0, tier="quick", options=None, max_path
         unw = [e for e in res["open"] if not e.get("witnessed")]
     # ---- solver-made witnesses: for a path nobody witnessed, ask the solver for values of the scalar inputs (sym_int /
     # sym_float / scalar) that satisfy the path condition, execute them, and treat the run as any other witness
-    unw = [e for e in res["open"] if not e.get("witnessed")]
-    done_paths = set()
-    for e0 in unw:
-        if time.time() - t0 > budget * 1.3 or len(done_paths) >= opts.get("solver_witnesses", 6):
-            break
-        h0 = e0["phash"]
-        if h0 in done_paths:
-            continue
-        done_paths.add(h0)
-        try:
-            ctx0 = Ctx(plan=e0.get("plan", []), seed=seed, options=opts)
-            B0 = SymBackend(ctx0, cfg_key, seed, tier)
-            with use_ctx(ctx0), stubs.installed(), warnings.catch_warnings():
-                warnings.simplefilter("ignore")
-                try:
-                    fn(B0, **params)
-                except (PathInfeasible, PathLimit, EngineError):
-                    continue
-                except Exception:  # noqa - the path may end in an exception of the code under test; its condition is still usable
-                    pass
-            if _phash(ctx0) != h0 or not B0.scalar_names:
+    # two kinds of candidates: "abstract" = model of the QF_LRA abstraction of assumptions + path condition (all variables free);
+    # "at-witness" = all non-scalar variables fixed at their witness values, path condition solved exactly for the scalar inputs
+    for _mode in ("abstract", "at-witness"):
+        unw = [e for e in res["open"] if not e.get("witnessed")]
+        done_paths = set()
+        for e0 in unw:
+            if time.time() - t0 > budget * 1.3 or len(done_paths) >= opts.get("solver_witnesses", 6 if _mode == "abstract" else 16):
+                break
+            h0 = e0["phash"]
+            if h0 in done_paths:
                 continue
-            ov = D.input_model(ctx0, set(B0.scalar_names))
-            if not ov:
+            done_paths.add(h0)
+            try:
+                ctx0 = Ctx(plan=e0.get("plan", []), seed=seed, options=opts)
+                B0 = SymBackend(ctx0, cfg_key, seed, tier)
+                with use_ctx(ctx0), stubs.installed(), warnings.catch_warnings():
+                    warnings.simplefilter("ignore")
+                    try:
+                        fn(B0, **params)
+                    except (PathInfeasible, PathLimit, EngineError):
+                        continue
+                    except Exception:  # noqa - the path may end in an exception of the code under test; its condition is still usable
+                        pass
+                if _phash(ctx0) != h0 or not B0.scalar_names:
+                    continue
+                ov = (D.input_model if _mode == "abstract" else D.input_model_at_witness)(ctx0, set(B0.scalar_names))
+                if not ov:
+                    continue
+                FBs, ferrs = run_float(fn, params, cfg_key, seed, rtol=opts.get("float_rtol", 1e-8), tier=tier, override=ov)
+                fstat = {o.name: o for o in FBs.obligations}
+                ctx = Ctx(plan=[], seed=seed, options=opts)
+                B = SymBackend(ctx, cfg_key, seed, tier)
+                B.override = dict(ov)
+                with use_ctx(ctx), stubs.installed(), warnings.catch_warnings():
+                    warnings.simplefilter("ignore")
+                    try:
+                        fn(B, **params)
+                    except (PathInfeasible, PathLimit, EngineError):
+                        continue
+                    except Exception:  # noqa
+                        pass
+                    h1 = _phash(ctx)
+                    names = {e["obligation"] for e in res["open"] if e.get("phash") == h1 and not e.get("witnessed")}
+                    if not ctx.on_witness:
+                        continue
+                    if not names:
+                        # the candidate left the targeted path (integer rounding; int(...) of a symbolic value is concretised at the
+                        # witness, so the path condition itself depends on it). It is still an execution of the real code: an
+                        # obligation that is open without witness AND fails concretely on it, in both backends, is a replayed counterexample
+                        open_names = {e["obligation"] for e in res["open"] if not e.get("witnessed")}
+                        hit = False
+                        for ob in B.obligations:
+                            fo = fstat.get(ob.name)
+                            if ob.name in open_names and ob.status == "failed-concrete" and fo is not None and fo.status in ("violated", "failed-concrete"):
+                                res["violations"].append({"obligation": ob.name, "status": ob.status, "detail": ob.detail, "path": ctx.describe_path()[:6], "witnessed": True, "confirmed": True, "float_detail": fo.detail, "seed": seed, "override": ov, "solver_made_witness": True})
+                                res["open"] = [e for e in res["open"] if not (e["obligation"] == ob.name and not e.get("witnessed"))]
+                                hit = True
+                        res["notes"].append(f"solver-made witness {ov} left the targeted path" + (" and violates an open obligation concretely" if hit else ""))
+                        continue
+                    h0 = h1
+                    B.pending_goals = [pg for pg in B.pending_goals if pg[0].name in names]
+                    B.refuted = set(names)
+                    B.discharge(rounds=1, maxdeg=opts["maxdeg"], timeout_ms=opts["timeout_ms"])
+            except Exception as ex:  # noqa
+                res["notes"].append(f"solver-made witness failed: {type(ex).__name__}: {str(ex)[:80]}")
                 continue
-            FBs, ferrs = run_float(fn, params, cfg_key, seed, rtol=opts.get("float_rtol", 1e-8), tier=tier, override=ov)
-            fstat = {o.name: o for o in FBs.obligations}
-            ctx = Ctx(plan=[], seed=seed, options=opts)
-            B = SymBackend(ctx, cfg_key, seed, tier)
-            B.override = dict(ov)
-            with use_ctx(ctx), stubs.installed(), warnings.catch_warnings():
-                warnings.simplefilter("ignore")
-                try:
-                    fn(B, **params)
-                except (PathInfeasible, PathLimit, EngineError):
+            res["notes"].append(f"solver-made witness ({_mode}) {ov} follows a previously unwitnessed path")
+            for ob in B.obligations:
+                if ob.name not in names or ob.status == "proved":
                     continue
-                except Exception:  # noqa
-                    pass
-                h1 = _phash(ctx)
-                names = {e["obligation"] for e in res["open"] if e.get("phash") == h1 and not e.get("witnessed")}
-                if not ctx.on_witness:
-                    continue
-                if not names:
-                    # the candidate left the targeted path (integer rounding; int(...) of a symbolic value is concretised at the
-                    # witness, so the path condition itself depends on it). It is still an execution of the real code: an
-                    # obligation that is open without witness AND fails concretely on it, in both backends, is a replayed counterexample
-                    open_names = {e["obligation"] for e in res["open"] if not e.get("witnessed")}
-                    hit = False
-                    for ob in B.obligations:
-                        fo = fstat.get(ob.name)
-                        if ob.name in open_names and ob.status == "failed-concrete" and fo is not None and fo.status in ("violated", "failed-concrete"):
-                            res["violations"].append({"obligation": ob.name, "status": ob.status, "detail": ob.detail, "path": ctx.describe_path()[:6], "witnessed": True, "confirmed": True, "float_detail": fo.detail, "seed": seed, "override": ov, "solver_made_witness": True})
-                            res["open"] = [e for e in res["open"] if not (e["obligation"] == ob.name and not e.get("witnessed"))]
-                            hit = True
-                    res["notes"].append(f"solver-made witness {ov} left the targeted path" + (" and violates an open obligation concretely" if hit else ""))
-                    continue
-                h0 = h1
-                B.pending_goals = [pg for pg in B.pending_goals if pg[0].name in names]
-                B.refuted = set(names)
-                B.discharge(rounds=1, maxdeg=opts["maxdeg"], timeout_ms=opts["timeout_ms"])
-        except Exception as ex:  # noqa
-            res["notes"].append(f"solver-made witness failed: {type(ex).__name__}: {str(ex)[:80]}")
-            continue
-        res["notes"].append(f"solver-made witness {ov} follows a previously unwitnessed path")
-        for ob in B.obligations:
-            if ob.name not in names or ob.status == "proved":
-                continue
-            fo = fstat.get(ob.name)
-            bad_sym = ob.status == "failed-concrete" or (ob.resid is not None and ob.resid > 1e-7)
-            if bad_sym and fo is not None and fo.status in ("violated", "failed-concrete"):
-                res["violations"].append({"obligation": ob.name, "status": ob.status, "detail": ob.detail, "path": ctx.describe_path()[:6], "witnessed": True, "confirmed": True, "float_detail": fo.detail, "seed": seed, "override": ov, "solver_made_witness": True})
-                res["open"] = [e for e in res["open"] if not (e["phash"] == h0 and e["obligation"] == ob.name)]
+                fo = fstat.get(ob.name)
+                bad_sym = ob.status == "failed-concrete" or (ob.resid is not None and ob.resid > 1e-7)
+                if bad_sym and fo is not None and fo.status in ("violated", "failed-concrete"):
+                    res["violations"].append({"obligation": ob.name, "status": ob.status, "detail": ob.detail, "path": ctx.describe_path()[:6], "witnessed": True, "confirmed": True, "float_detail": fo.detail, "seed": seed, "override": ov, "solver_made_witness": True})
+                    res["open"] = [e for e in res["open"] if not (e["phash"] == h0 and e["obligation"] == ob.name)]
     for e in res["open"]:
         e.pop("phash", None)
         e.pop("plan", None)
